@@ -863,3 +863,32 @@ fn b_skip_string_unchecked_tail_w27() {
     kani::cover!(end < 34);
     core::mem::forget(r);
 }
+
+/// C02/C10/C01 B-skip_space: 80-byte buffer, two fixed leading spaces, a 10-byte symbolic window
+/// at 2..12, neutral 'x' elsewhere: the first call takes the 64-byte block path and fills the
+/// non-space bitmap cache, the second and third calls (from wherever the previous one stopped)
+/// take the cached fast path; all three return the first non-whitespace byte at or after the
+/// reader and leave the reader just after it.
+#[kani::proof]
+#[kani::unwind(3)]
+fn b_skip_space_cache_w2() {
+    const N: usize = 80;
+    let mut buf = windowed::<N, 10>(2, b'x');
+    buf[0] = b' ';
+    buf[1] = b'\n';
+    let mut p = mk(&buf[..]);
+    let mut at = 0usize;
+    let mut round = 0;
+    while round < 3 {
+        let r = p.skip_space();
+        let j = ref_skip_ws(&buf, N, at);
+        // the buffer ends with non-whitespace filler, so a byte is always found
+        assert_eq!(r, Some(buf[j]));
+        assert_eq!(p.read.index(), j + 1);
+        at = j + 1;
+        round += 1;
+    }
+    kani::cover!(at == 14);
+    kani::cover!(at == 5 && buf[2] != b' ');
+    kani::cover!(p.nospace_start == 2 && at > 8);
+}
